@@ -147,11 +147,18 @@ def make_inputs(seed, tier):
     add("gen", good[:half])
     add("genq", good[half:], ["-Q3"])
     add("genbad", bad)
-    marked = 0
-    for g in groups:
-        if g.gid.startswith("gen") and not g.opts and marked < (1 if tier == "quick" else 8):
-            g.midk = True
-            marked += 1
+    if tier == "quick":
+        # periods 50 <= k < 1000 cost about 20 s of CPU per program: the quick tier spends that on the smallest program only
+        smallest = min(good[:half], key=lambda i: len(i.text))
+        g = Group("genmid0", [Input("m_" + smallest.name, smallest.text, "gen", smallest.origin)])
+        g.midk = True
+        groups.append(g)
+    else:
+        marked = 0
+        for g in groups:
+            if g.gid.startswith("gen") and not g.opts and marked < 8:
+                g.midk = True
+                marked += 1
     # corpus programs over the library: plain and with planted errors
     c_err = [c for c in big if "TestErrorsToo" in c[1]]
     add("corpus", [corpus_input(c, "corpus", "c") for c in big[:n_corpus]])
